@@ -53,7 +53,7 @@ def strip_line(ln):
 
 
 def mutants_of(fn):
-    src = open(os.path.join(REPO, fn), errors="surrogateescape").read().split("\n")
+    src = open(os.path.join(prepare_base(), fn), errors="surrogateescape").read().split("\n")
     out = []
     instr = re.compile(r'"(?:[^"\\]|\\.)*"|\'(?:[^\'\\]|\\.)*\'')
     for i, ln in enumerate(src):
@@ -83,7 +83,7 @@ def prepare_base():
     if os.path.exists(os.path.join(base, "vi")):
         return base
     os.makedirs(base, exist_ok=True)
-    subprocess.run("cd %s && git ls-files -z | xargs -0 cp --parents -t %s" % (REPO, base), shell=True, check=True)
+    subprocess.run("cd %s && git archive HEAD | tar -x -C %s" % (REPO, base), shell=True, check=True)
     subprocess.run(["make", "-s", "-C", base], check=True, stdout=subprocess.DEVNULL, stderr=subprocess.DEVNULL)
     return base
 
@@ -101,7 +101,7 @@ def worker_dir(k):
 def try_mutant(k, m):
     d = worker_dir(k)
     p = os.path.join(d, m["file"])
-    orig = open(os.path.join(REPO, m["file"]), errors="surrogateescape").read()
+    orig = open(os.path.join(W, "base", m["file"]), errors="surrogateescape").read()
     lines = orig.split("\n")
     lines[m["line"] - 1] = m["new"]
     with open(p, "w", errors="surrogateescape") as f:
@@ -173,7 +173,8 @@ def evaluate(limit, files=None):
         n += 1
         shutil.rmtree(d, ignore_errors=True)
         os.makedirs(d)
-        subprocess.run("cd %s && git ls-files -z | xargs -0 cp --parents -t %s" % (REPO, d), shell=True, check=True)
+        for f in glob.glob(os.path.join(W, "base", "*.[ch]")) + [os.path.join(W, "base", "Makefile")]:
+            shutil.copy(f, d)
         p = os.path.join(d, m["file"])
         lines = open(p, errors="surrogateescape").read().split("\n")
         lines[m["line"] - 1] = m["new"]
